@@ -162,9 +162,20 @@ def setup(ctx):
 def workload(ctx):
     rng = ctx.rng(1)
     n = ctx.n(1800, 25000)
+    prev = None
     for i in range(n):
         U, rs, info = gen.rotation(rng, gen.ROT_STRATA[i % len(gen.ROT_STRATA)])
         c, cs = gen.cell(rng, gen.CELL_STRATA[(i // len(gen.ROT_STRATA)) % len(gen.CELL_STRATA)])
+        if prev is not None and rng.random() < 0.3:
+            # histories: keep the previous U or the previous cell (possibly a refinement step away)
+            if rng.random() < 0.5:
+                U, rs = prev[0], prev[1]
+            else:
+                d = 0.0 if rng.random() < 0.4 else 10 ** rng.uniform(-8, -4)
+                c2 = [x * (1 + d) for x in prev[2]]
+                if oracle.gram_det_angular(c2) >= 0.02 and max(c2[3:]) < 175:
+                    c, cs = c2, "scan"
+        prev = (U, rs, c)
         yield "u_cell", {"U": U.tolist(), "rot_stratum": rs, "cell": c, "cell_stratum": cs,
                          "hkls": [gen.hkl(rng) for _ in range(3)], "as_list": bool(i % 5 == 0)}
     rng = ctx.rng(2)
